@@ -195,6 +195,10 @@ class Task:
         version = self.version
         # Figure out whether the connection should be closed.
         connection = self.request.headers.get("CONNECTION", "").lower()
+        if getattr(self.request, "connection_close", False):
+            # the parser decided that the connection can not be reused after
+            # this message (e.g. Content-Length together with Transfer-Encoding)
+            connection = "close"
         response_headers = []
         content_length_header = None
         date_header = None
